@@ -475,6 +475,27 @@ fn run_added<W: Write>(cx: &mut Cx<W>) {
     isq!(f64, isq_d, "isq_d");
     isq!(f32, isq_e, "isq_e");
     isq!(f64, isq_f, "isq_f");
+    // formatting of the added units (labels must be the declared abbreviation / singular / plural)
+    macro_rules! fadded {
+        ($QT:ty, $D:ty, $U:ty, $bname:expr, $module:expr, $idx:expr, $N:ty, $unit:expr, $vals:expr) => {{
+            let pows = join_hex(&base_pows::<$D, $U, f64>());
+            for v in $vals {
+                let q = { let mut z = <$QT>::new::<$N>(1.0); z.value = v; z };
+                let x = q.get::<$N>();
+                for (st, sname) in [(DisplayStyle::Abbreviation, "a"), (DisplayStyle::Description, "d")] {
+                    let a = q.into_format_args($unit, st);
+                    writeln!(cx.out, "fmt f64 {} {} {} {} 0 {} {} {} {} {} {} {}", $bname, $module, $idx, sname,
+                        <$N as Conversion<f64>>::coefficient().hex(), <$N as Conversion<f64>>::constant(ConstantOp::Sub).hex(), pows, v.hex(), x.hex(),
+                        hex_str(&format!("{}", a)), hex_str(&format!("{}", x))).unwrap();
+                }
+            }
+        }};
+    }
+    fadded!(uom::si::f64::Length, l::Dimension, uom::si::SI<f64>, "si", "added.length", 0, added_length::smoot, added_length::smoot, [1.702f64, 3.404, 0.0, 10.0]);
+    fadded!(uom::si::f64::Length, l::Dimension, uom::si::SI<f64>, "si", "added.length", 1, added_length::beard_second, added_length::beard_second, [5.0e-9f64, 1.0]);
+    fadded!(isq_a::Length, l::Dimension, isq_a::Units, "isq_a", "added.length", 0, added_length::smoot, added_length::smoot, [1.702e-3f64, 2.0]);
+    fadded!(uom::si::f64::ThermodynamicTemperature, tt::Dimension, uom::si::SI<f64>, "si", "added.thermodynamic_temperature", 0, added_temperature::degree_newton,
+        added_temperature::degree_newton, [273.15f64, 276.18030303030304, 300.0]);
     // the tuple is applied in order: base-unit abbreviations of a Debug-printed quantity
     let s = format!("{:?}", isq_a::Energy { dimension: PhantomData, units: PhantomData, value: 2.5 });
     writeln!(cx.out, "dbg f64 isq_a energy length,mass,time,electric_current,thermodynamic_temperature,amount_of_substance,luminous_intensity kilometer,gram,hour,milliampere,millikelvin,kilomole,candela {} {}",
